@@ -167,6 +167,8 @@ def signal_scenarios(eng, tier, res, which=("recv_waiter", "send_waiter", "termi
         if sync_waiter:
             lost = [z3.And(sn["finished"][1], sn["parked"][0], z3.Not(sn["token"][0])) for sn in run.snaps]
             qs.append(("no lost wake-up: peer finished while the waiter is parked without a token", z3.Or(lost), "unsat"))
+            qs.append(("witness: the waiter leaves its spin phase and parks (park path reachable within K)",
+                       z3.Or([sn["parked"][0] for sn in run.snaps]), "sat"))
         else:
             qs.append(("task waker invoked when the peer has finished", z3.And(run.snaps[-1]["finished"][1], z3.Not(run.snaps[-1]["shared"]["woken"])), "unsat"))
         run_queries(res, run, sc, qs)
